@@ -65,6 +65,22 @@ func regAct(kind, owner string, ident []string, maxEnts int) Action {
 		}}
 }
 
+// upper: the same letter with every address in its messages spelled in upper case.
+func upper(a Action) Action {
+	txs := a.Txs
+	a.Name += "[upper-case addresses]"
+	a.Txs = func(m *model.State) []model.Tx {
+		out := txs(m)
+		for i := range out {
+			for j := range out[i].Msgs {
+				out[i].Msgs[j].Up = true
+			}
+		}
+		return out
+	}
+	return a
+}
+
 func purAct(name, kind, signer string, id, n uint64, nestedBy string) Action {
 	return Action{Name: name, Dt: time.Millisecond, Txs: func(m *model.State) []model.Tx {
 		per := m.Wrk.P.FeePur
@@ -167,6 +183,17 @@ func anchorScenario(o anchorOpts) *Scenario {
 				}
 				return txs
 			}},
+			Action{Name: "wrec(W2,#2,next)x3", Dt: time.Millisecond, Txs: func(m *model.State) []model.Tx {
+				last := uint64(0)
+				if e, ok := m.Wrk.Ents[2]; ok {
+					last = e.Last
+				}
+				var txs []model.Tx
+				for i := uint64(1); i <= 3; i++ {
+					txs = append(txs, model.Tx{Msgs: []model.Msg{{Kind: model.WrkRec, From: "W2", ID: 2, H: last + i, S: recHashes(m, 2, last+i)}}, Fee: fee(m.Wrk.P.FeeRec)})
+				}
+				return txs
+			}},
 			Action{Name: "brec(W1,#1)x3", Dt: time.Millisecond, Txs: func(m *model.State) []model.Tx {
 				n := 0
 				if e, ok := m.Bcn.Ents[1]; ok {
@@ -227,7 +254,14 @@ func anchorScenario(o anchorOpts) *Scenario {
 			regAct(model.WrkReg, "O", []string{"m", long(129), "0xg", "t"}, maxEnts),
 			regAct(model.WrkReg, "O", []string{"m", "n", long(67), "t"}, maxEnts),
 			regAct(model.WrkReg, "O", []string{"", "n", "0xg", "t"}, maxEnts),
+			// the owner spelled in upper case (a legal bech32 spelling): the stored owner is the signer's address all the same
+			upper(regAct(model.WrkReg, "W2", wIdent("u"), maxEnts)), upper(regAct(model.BcnReg, "W2", bIdent("u"), maxEnts)),
 			regAct(model.WrkReg, "O", []string{"m-only", "", "", "t"}, maxEnts), // optional fields left empty
+			// limits are in bytes: 64 two-byte characters are 128 bytes (at the limit of the name), 128 are 256 (beyond it)
+			regAct(model.WrkReg, "O", []string{"m-utf8", strings.Repeat("é", 64), "0xg", "t"}, maxEnts),
+			regAct(model.WrkReg, "O", []string{"m-utf8x", strings.Repeat("é", 128), "0xg", "t"}, maxEnts),
+			regAct(model.WrkReg, "O", []string{strings.Repeat("é", 33), "n", "0xg", "t"}, maxEnts),
+			regAct(model.BcnReg, "O", []string{"b-utf8x", strings.Repeat("é", 65)}, maxEnts),
 			regAct(model.BcnReg, "O", []string{"b-only", ""}, maxEnts),
 			regAct(model.BcnReg, "O", []string{long(64), long(128)}, maxEnts),
 			regAct(model.BcnReg, "O", []string{long(65), "n"}, maxEnts),
@@ -304,7 +338,7 @@ func init() {
 				Quick:    {Depth: 4, Budget: 150 * time.Second, ReplayEvery: 16},
 				Thorough: {Depth: 8, Budget: 15 * time.Minute, ReplayEvery: 32, MaxStates: 500000},
 			}}},
-			Owns: ownsAny("anch.record", "anch.missing", "tx.accept_unexpected:wrk.rec:height_not_new", "tx.accept_unexpected:wrk.rec:not_owner", "tx.accept_unexpected:bcn.rec:not_owner", "tx.nonatomic"),
+			Owns: ownsAny("anch.record", "anch.missing", "tx.accept_unexpected:wrk.rec:invalid_field", "tx.accept_unexpected:bcn.rec:invalid_field", "tx.accept_unexpected:wrk.rec:height_not_new", "tx.accept_unexpected:wrk.rec:not_owner", "tx.accept_unexpected:bcn.rec:not_owner", "tx.nonatomic"),
 		}
 	}
 	Checks["C08"] = func() *Check {
@@ -322,10 +356,10 @@ func init() {
 	Checks["C09"] = func() *Check {
 		return &Check{ID: "C09",
 			Runs: []Run{{S: anchorScenario(anchorOpts{name: "anchor-identity", identity: true}), Opt: map[Tier]Options{
-				Quick:    {Depth: 4, Budget: 150 * time.Second, ReplayEvery: 16},
+				Quick:    {Depth: 3, Budget: 150 * time.Second, ReplayEvery: 16},
 				Thorough: {Depth: 6, Budget: 15 * time.Minute, ReplayEvery: 32, MaxStates: 500000},
 			}}},
-			Owns: ownsAny("anch.identity", "tx.accept_unexpected:wrk.rec:not_owner", "tx.accept_unexpected:wrk.rec:no_such_entity", "tx.accept_unexpected:bcn.rec:not_owner", "tx.accept_unexpected:bcn.rec:no_such_entity",
+			Owns: ownsAny("anch.identity", "tx.accept_unexpected:wrk.reg", "tx.accept_unexpected:bcn.reg", "tx.accept_unexpected:wrk.rec:not_owner", "tx.accept_unexpected:wrk.rec:no_such_entity", "tx.accept_unexpected:bcn.rec:not_owner", "tx.accept_unexpected:bcn.rec:no_such_entity",
 				"tx.accept_unexpected:wrk.pur:not_owner", "tx.accept_unexpected:wrk.pur:no_such_entity", "tx.accept_unexpected:bcn.pur:not_owner", "tx.accept_unexpected:bcn.pur:no_such_entity", "tx.nonatomic"),
 		}
 	}
